@@ -55,16 +55,16 @@ RECURSIVE ByWeightC(_, _, _)
 ByWeightC(x, q, S) ==               \* the tracks of S by decreasing weight for query q
   IF S = {} THEN <<>>
   ELSE LET t == CHOOSE a \in S : \A y \in S : x.w[q][y] <= x.w[q][a] IN <<t>> \o ByWeightC(x, q, S \ {t})
-Prefix(s, n) == IF Len(s) > n THEN SubSeq(s, 1, n) ELSE s
+VPrefix(s, n) == IF Len(s) > n THEN SubSeq(s, 1, n) ELSE s
 OwnerC(x, t) == LET cl == {q \in x.Q : <<q, t>> \in x.cl} IN CHOOSE q \in cl : \A q2 \in cl : x.w[q2][t] <= x.w[q][t]
 (* top-N: the N heaviest eligible tracks of q, heaviest first *)
-TopNC(x, N, q) == Prefix(ByWeightC(x, q, EligibleC(x, q)), N)
+TopNC(x, N, q) == VPrefix(ByWeightC(x, q, EligibleC(x, q)), N)
 (* best fit: every claim of q in weight order; a track q does not own is replaced by q itself *)
 BestFitC(x, q) == LET l == ByWeightC(x, q, EligibleC(x, q)) IN [i \in DOMAIN l |-> IF OwnerC(x, l[i]) = q THEN l[i] ELSE q]
 TieFreeC(x) == \A c1, c2 \in x.cl : (c1 # c2 /\ (c1[1] = c2[1] \/ c1[2] = c2[2])) => x.w[c1[1]][c1[2]] # x.w[c2[1]][c2[2]]
 TopN(str, maxd, minv, N, q) == TopNC(Ctx(str, maxd, minv), N, q)
 BestFit(str, maxd, minv, q) == BestFitC(Ctx(str, maxd, minv), q)
-Range(s) == {s[i] : i \in DOMAIN s}
+VRange(s) == {s[i] : i \in DOMAIN s}
 (* facts: the functional answers satisfy the declarative statements of C17 *)
 TopNOKC(x, N, q, lst) ==            \* TopNOK on a context
   LET el == EligibleC(x, q) IN
@@ -74,11 +74,11 @@ TopNOKC(x, N, q, lst) ==            \* TopNOK on a context
   /\ \A t \in el : (\A i \in DOMAIN lst : lst[i] # t) => \A i \in DOMAIN lst : x.w[q][lst[i]] >= x.w[q][t]
 TopNFactsC(x, N) == \A q \in x.Q : TopNOKC(x, N, q, TopNC(x, N, q))
 BestFitFactsC(x) ==
-  /\ \A t \in x.T : Cardinality({q \in x.Q : t \in Range(BestFitC(x, q))}) <= 1         \* a track is awarded at most once
-  /\ \A q \in x.Q : \A t \in Range(BestFitC(x, q)) \ {q} :                            \* ... to its heaviest claimant
+  /\ \A t \in x.T : Cardinality({q \in x.Q : t \in VRange(BestFitC(x, q))}) <= 1         \* a track is awarded at most once
+  /\ \A q \in x.Q : \A t \in VRange(BestFitC(x, q)) \ {q} :                            \* ... to its heaviest claimant
         /\ <<q, t>> \in x.cl
         /\ \A q2 \in x.Q : <<q2, t>> \in x.cl => x.w[q2][t] <= x.w[q][t]
-  /\ \A cc \in x.cl : \E q \in x.Q : cc[2] \in Range(BestFitC(x, q))                   \* every claimed track is awarded
+  /\ \A cc \in x.cl : \E q \in x.Q : cc[2] \in VRange(BestFitC(x, q))                   \* every claimed track is awarded
 (* a track claimed by >= 2 queries; a query with more eligible tracks than N *)
 ContestedC(x) == \E c1, c2 \in x.cl : c1[1] # c2[1] /\ c1[2] = c2[2]
 CutAtC(x, N) == \E q \in x.Q : Cardinality(EligibleC(x, q)) > N
